@@ -737,10 +737,6 @@ def check_tables(ck, gvh, oracle, tier, corpus, tag="t"):
     return nviol, imdiff
 
 
-def oracle_line(cid, case, goev):
-    return cid + " " + case
-
-
 # ----------------------------------------------------------------------------- run
 def build(ck):
     # C19_OVERLAY: a `go build -overlay` file, used only for the mutation-sensitivity experiments
@@ -755,7 +751,7 @@ def build(ck):
     return gvh, oracle
 
 
-def run_go(gvh, lines, batch=2000, timeout=600):
+def run_go(gvh, lines, batch=2000, timeout=150):
     """Batched run; if the process hangs / dies / loses lines, the cases without an answer are rerun one
     per runtime under the resilient runner (which attributes a crash or hang to a single case)."""
     rc, out, err = vlib.run_lines(gvh, [str(batch)], lines, timeout=timeout)
@@ -932,13 +928,64 @@ def run(tier, seed):
 
 
 def replay(path, seed):
+    """Re-runs the case of a replay file on the Go side and on both models."""
     r = json.load(open(path))
     ck = vlib.Check("C19", "quick", seed)
     gvh, oracle = build(ck)
+    if gvh is None or "case" not in r:
+        print(json.dumps(r, indent=1)[:2000])
+        return 1
     line = "r " + r["case"]
     go = run_go(gvh, [line])
-    _, mod, _ = run_oracle(oracle, [line if not r["case"].startswith("T") else oracle_line("r", r["case"], go.get("r", ""))])
     print("case :", r["case"])
     print("impl :", go.get("r"))
+    if not r["case"].startswith("T"):
+        _, mod, _ = run_oracle(oracle, [line])
+        print("impl canonical:", go_result(go.get("r", "")))
+        print("model:", mod.get("r"))
+        return 0
+    # table case: rebuild the case dict from the line
+    f = r["case"].split()
+    c = {"op": f[0][1:], "mode": "plain", "len": None, "t1": {}, "t2": None, "args": []}
+
+    def val(a):
+        if a in ("@1", "@2"):
+            return a
+        if a == "n":
+            return None
+        if a in ("b0", "b1"):
+            return a == "b1"
+        if a[0] == "i":
+            return int(a[1:], 16)
+        return bytes.fromhex(a[1:]) if a != "s-" else b""
+
+    def cont(sv):
+        d = {}
+        if sv not in ("-", ""):
+            for kv in sv.split(";"):
+                k, _, v = kv.partition("=")
+                d[val(k)] = val(v)
+        return d
+    i = 1
+    while i < len(f) and f[i] != "--":
+        k, _, v = f[i].partition("=")
+        if k == "mode":
+            c["mode"] = v
+        elif k == "len":
+            c["len"] = None if v == "-" else val(v)
+        elif k in ("t1", "t2"):
+            c[k] = cont(v)
+        elif k == "err":
+            c["err"] = int(v)
+        elif k == "cmp":
+            c["cmp"] = v
+        i += 1
+    c["args"] = [val(a) for a in f[i + 1:]]
+    g = parse_tab_go(go.get("r", ""))
+    if c["op"] == "sort":
+        print("sort predicates:", sort_predicates(c, g))
+        return 0
+    _, mod, _ = run_oracle(oracle, [tab_oracle_line("r", c, g)])
+    print("impl canonical:", tab_go_canon(c, g))
     print("model:", mod.get("r"))
     return 0
